@@ -36,6 +36,8 @@ def configs(tier):
     for cs in (SETS_Q if tier == "quick" else SETS_T):
         out.append({"classes": cs, "clause": "set"})
         out.append({"classes": cs, "clause": "size"})
+    # an edge class deriving from BOTH stock edge types: whatever neighbors() makes of it, find_links must agree
+    out.append({"classes": ["BI", "DE"], "clause": "size"})
     for cs in ([["DE", "UE"], ["TE", "SD"], ["DE", "DE"]] if tier == "quick" else SETS_Q + [["DE", "UE"], ["TE", "SD"]]):
         out.append({"classes": cs, "clause": "unlink"})
     return out
